@@ -492,6 +492,17 @@ def execute(case):
                             f0['refuse_mask'], fnames))
             else:
                 res.stats['probe:next_address_tried'] += 1
+    if 'socket_fail_mask' in f0 and len(case['faults']) == 1:
+        naddr = len(sc['conns'][0]['addrs'])
+        if f0['socket_fail_mask'] != (1 << naddr) - 1 and naddr > 1:
+            # socket() failed for one address (no such address family on
+            # this host): the next address is tried
+            if 'connected' not in fnames:
+                res.bad(key + '/next_address_not_tried_after_socket_error',
+                        'mask %d: an address accepts, events %s' % (
+                            f0['socket_fail_mask'], fnames))
+            else:
+                res.stats['probe:next_address_tried'] += 1
     if 'ready' in fnames and fired:
         res.stats['probe:fault_after_ready'] += 1
     if sc['conns'][0].get('proxy') and 'connected' not in fnames and fired:
